@@ -167,6 +167,19 @@ def gen_mesh_diamond(rng, name):
     return c
 
 
+def mesh_diamond_rerank_case(name, rng):
+    """Constructed: D reads B and C, C reads B (built in the first cycle, D registers on B before C does); later B gains a
+    dependency on a key that is only ever requested through the mesh (re-rank sweep over B's dependents); afterwards B ticks
+    repeatedly, making C and D due in the same scan."""
+    c = gen_mesh_diamond(rng, name)
+    swap = rng.random() < 0.5
+    D, C = (1, 2) if not swap else (2, 1)
+    c.cscripts[1] = ["0|[1]=10,[2]=20,[3]=30"] + [f"{t}|[3]={30 + t % 9}" for t in (5, 7, 8, 11, 13)] + ["9|[1]=11,[2]=21"]
+    c.cscripts[2] = [f"0|[{D}]=3{C:02d},[{C}]=303", "3|[3]=404"]
+    c.end = 16
+    return c
+
+
 def check_mesh_diamond(case, tr, res):
     run = tr.runs[0]
     if run.error and "failed_to_settle" in run.error:
@@ -214,6 +227,35 @@ def check_mesh_diamond(case, tr, res):
         for ue in evs:
             if ue.uid in (105, 106) and ue.gid in key_of:
                 reads[(ue.gid, ue.uid)] = ue.ins[1]
+        # the engine settles a cycle in SCANS: each scan takes a rank-ordered snapshot of the instances that are due when it starts;
+        # instances that become due during a scan (a dependency of theirs produced) run in a later scan. Reconstructed from the
+        # trace: evaluation order, and for every instance the position at which it became due.
+        order, produced_at = [], {}
+        for ue in evs:
+            if ue.gid in key_of and ue.uid in (100, 103, 105, 106):
+                k_ = key_of[ue.gid]
+                if k_ not in order:
+                    order.append(k_)
+                if ue.uid == 106:
+                    produced_at[k_] = order.index(k_)
+        key_links = {key_of[g]: ab for g, ab in link_of.items() if g in key_of}
+        due = {}
+        for k_ in order:
+            if k_ in outer.get(t, ()):
+                due[k_] = -1
+            else:
+                ds = [produced_at[x] for x in key_links.get(k_, ()) if x in produced_at and x != k_]
+                due[k_] = min(ds) if ds else -1
+        scan_of, i_, boundary, sc_ = {}, 0, -1, 0
+        while i_ < len(order):
+            j_ = i_
+            while j_ < len(order) and due[order[j_]] <= boundary:
+                j_ += 1
+            if j_ == i_:
+                j_ = i_ + 1
+            for k_ in order[i_:j_]:
+                scan_of[k_] = sc_
+            boundary, i_, sc_ = j_ - 1, j_, sc_ + 1
         for gid, (a, b) in link_of.items():
             if gid not in key_of:
                 continue
@@ -223,10 +265,10 @@ def check_mesh_diamond(case, tr, res):
                     r = reads.get((gid, uid))
                     if r is None or not r[0] or r[3] != new_out[dep_key]:
                         stale += 1
-                        if dep_key not in outer.get(t, ()):
-                            # known finding F27: the dependency is not due when the pass starts (none of its own inputs ticked); it
-                            # becomes due in the middle of the pass (through a third instance's tick) and is evaluated after a reader
-                            # that was already in the pass's rank snapshot
+                        if scan_of.get(dep_key, 10 ** 6) > scan_of.get(key_of[gid], -1):
+                            # known finding F27: the dependency became due only DURING the scan in which the reader ran (it belongs to a
+                            # later scan), so the reader's rank snapshot did not contain it. A dependency that was due in the SAME scan
+                            # as its reader and still ran after it is a rank-order violation and is reported.
                             known.append(f"t={t}: the instance of key {key_of[gid]} was evaluated before (or not after) the instance of "
                                          f"key {dep_key} it reads, which became due only through another instance's tick in this cycle; the reader "
                                          f"kept the previous result")
@@ -306,6 +348,8 @@ def generate(rng, tier, seed):
         cases.append(gen_mesh_case(rng, f"c01_{seed}_m{k}"))
     for k in range(n // 5):
         cases.append(gen_mesh_diamond(rng, f"c01_{seed}_md{k}"))
+    for k in range(4):
+        cases.append(mesh_diamond_rerank_case(f"c01_{seed}_mdr{k}", rng))
     kinds = ["delayed", "rank", "rank2", "control"]
     for k in range(n // 5):
         cases.append(make_cyclic(rng, f"c01_{seed}_cyc{k}", kinds[k % len(kinds)]))
